@@ -458,7 +458,9 @@ type countedFrame struct {
 	depth  int       // stack depth of the counted frame
 	root   ssa.Value // the collection whose length was announced
 	lenVal ssa.Value
+	lenArg ssa.Value // the length argument as written
 	start  ssa.Instruction
+	pairNT []*ssa.Call // P* non-terminals that produced the members
 }
 
 type r10client struct {
@@ -637,7 +639,7 @@ func (k *r10client) Instr(s r10state, in ssa.Instruction) (r10state, bool, []r10
 				if c, ok := constIntVal(la); !(ok && c == -1) {
 					root, lv := lenRoot(la)
 					if _, exists := k.counted[in]; !exists {
-						k.counted[in] = &countedFrame{depth: len(s.stack), root: root, lenVal: lv, start: in}
+						k.counted[in] = &countedFrame{depth: len(s.stack), root: root, lenVal: lv, lenArg: la, start: in}
 					}
 					if root == nil {
 						if _, isC := la.(*ssa.Const); !isC {
@@ -759,6 +761,9 @@ func (k *r10client) Instr(s r10state, in ssa.Instruction) (r10state, bool, []r10
 				okCnt = true
 			}
 			if !okCnt {
+				cf.pairNT = append(cf.pairNT, call)
+			}
+			if !okCnt && k.lenBad[cf.start] == "" {
 				k.lenBad[cf.start] = fmt.Sprintf("the members are produced by a %s folder at %s, which emits a number of pairs that is not tied to the announced length", nt, pos)
 			}
 		}
@@ -1151,6 +1156,15 @@ func runR10(p *core.Prog, r *core.Result, env *r10env, f *ssa.Function, decl ety
 	sort.Slice(starts, func(i, j int) bool { return instrPos(starts[i]) < instrPos(starts[j]) })
 	for i, st := range starts {
 		spos := p.Pos(token.Pos(instrPos(st)))
+		if _, bad := k.lenBad[st]; bad {
+			if why := guardedCount(p, env, f, k.counted[st]); why == "" {
+				delete(k.lenBad, st)
+				r.Ok(".LEN-EXACT", spos, fkey+": announces a captured count that is len(fields) only under the 'exact' flag, which is true only if every field folder reports exactly one member (premises a-e checked)")
+				continue
+			} else if why != "n/a" {
+				k.lenBad[st] += "; the guarded-count argument does not hold either: " + why
+			}
+		}
 		if why, bad := k.lenBad[st]; bad {
 			r.Fail(".LEN-EXACT", fmt.Sprintf("%s|start#%d", fkey, i+1), spos, fmt.Sprintf("%s announces a container length at %s but %s: length-prefixed encodings (CBOR, UBJSON) are corrupted when the count is not exact", fkey, spos, why), "")
 		} else {
